@@ -7,9 +7,9 @@ id="$1"; dir="$2"; shift 2
 wt=/tmp/wt-eval-$$
 git -C /repo worktree add -q --detach $wt HEAD || exit 9
 trap 'git -C /repo worktree remove --force $wt >/dev/null 2>&1' EXIT
-echo "== demo without patch"; PYTHONPATH=$wt timeout 300 /venv/bin/python $dir/demo.py >/tmp/eval_demo0.txt 2>&1; echo "exit=$?"
+echo "== demo without patch"; (cd $wt; PYTHONPATH=$wt timeout 300 /venv/bin/python $dir/demo.py) >/tmp/eval_demo0.txt 2>&1; echo "exit=$?"
 git -C $wt apply $dir/patch.diff || { echo "PATCH DOES NOT APPLY"; exit 8; }
-echo "== demo with patch"; PYTHONPATH=$wt timeout 300 /venv/bin/python $dir/demo.py >/tmp/eval_demo1.txt 2>&1; echo "exit=$?"; tail -3 /tmp/eval_demo1.txt | cut -c1-300
+echo "== demo with patch"; (cd $wt; PYTHONPATH=$wt timeout 300 /venv/bin/python $dir/demo.py) >/tmp/eval_demo1.txt 2>&1; echo "exit=$?"; tail -3 /tmp/eval_demo1.txt | cut -c1-300
 echo "== baseline suite with patch"; /venv/bin/python /verif/tools/baseline.py --repo $wt -n 8
 echo "== check on /repo with patch"
 /verif/tools/try_patch.sh $dir/patch.diff $id "$@"
